@@ -54,7 +54,7 @@ def generate(contract, callees=None):
     return eng, obls
 
 
-def verify(contract, timeout_s=30, callees=None):
+def verify(contract, timeout_s=30, callees=None, include=None, exclude=None):
     """returns (list of engine.common.Obligation, info dict). Never raises for contract/subset problems: reports them."""
     t0 = time.time()
     info = {'function': contract.module + '.' + contract.name, 'status': 'ok', 'abstracted': [], 'vacuous': []}
@@ -67,8 +67,11 @@ def verify(contract, timeout_s=30, callees=None):
         info['status'] = 'contract-does-not-bind: %s' % e
         return [], info
     info['abstracted'] = eng.abstracted
+    import re
+    info['generated'] = len(obls)
+    obls = [o for o in obls if (include is None or re.search(include, o.name)) and not (exclude and re.search(exclude, o.name))]
     res = solve.discharge(obls, timeout_s=timeout_s)
-    info['vacuous'] = solve.vacuity(obls)
+    info['vacuous'] = solve.vacuity(eng)
     info['gen_seconds'] = time.time() - t0
     out = [EvObl(r['name'], info['function'], r['status'], r['backend'], r['seconds'], r['detail'], r['kind']) for r in res]
     return out, info
